@@ -29,8 +29,8 @@ def _names_of(pred, TRr, notes):
     out = set()
 
     def idname(t):
-        if t[0] == "call" and str(t[1]).endswith(".get") and len(t) >= 4 and T.is_const(t[2]) and (t[3] == T.NONE or (T.is_num_const(t[3]) and t[3][1] < 0)):
-            return t[2][1]          # a missing name yields None or a negative sentinel: no row carries such a name id
+        if t[0] == "call" and str(t[1]).endswith(".get") and len(t) >= 3 and T.is_const(t[2]) and (len(t) == 3 or t[3] == T.NONE or (T.is_num_const(t[3]) and t[3][1] < 0)):
+            return t[2][1]          # a missing name yields None (also the implicit default of dict.get) or a negative sentinel: no row carries such a name id
         if t[0] == "call" and str(t[1]).endswith(".get"):
             notes.append(f"symbol lookup default is {T.show(t[3]) if len(t) > 3 else 'missing'} (must be None or a negative sentinel so that a missing name matches no row)")
         return None
